@@ -169,20 +169,25 @@ pub fn c07_probe(
             }
             sut.bufs.snapshot_into(&mut a1);
             twin.bufs.snapshot_into(&mut b1);
-            if ra != rb || a1 != b1 {
+            // observable state: the trees and lower buffers (tree entries, counters, frame
+            // status); the local buffer holds search hints that only show through results
+            let skip = sut.bufs.local.len;
+            let obs_equal = a1[skip..] == b1[skip..];
+            if ra != rb || !obs_equal {
                 viol.push(Violation::new(
                     "C07",
                     "continuation differs after handoff",
                     format!(
-                        "{}: original {} rebuilt {} bytes_equal={}",
+                        "{}: original {} rebuilt {} observable_state_equal={}",
                         op.short(),
                         ra.short(),
                         rb.short(),
-                        a1 == b1
+                        obs_equal
                     ),
                 ));
                 return;
             }
+            // continue both from their own (possibly hint-different) states
             if p.probes.c07_depth2 {
                 // second step from the (equal) post state: a fixed small menu
                 let menu = [
@@ -200,16 +205,17 @@ pub fn c07_probe(
                     },
                     Op::Drain,
                 ];
-                let base = a1.clone();
+                let base_a = a1.clone();
+                let base_b = b1.clone();
                 for op2 in &menu {
-                    sut.bufs.restore(&base);
-                    twin.bufs.restore(&base);
+                    sut.bufs.restore(&base_a);
+                    twin.bufs.restore(&base_b);
                     let ra = sut.apply(op2);
                     let rb = twin.apply(op2);
                     n += 1;
                     sut.bufs.snapshot_into(&mut a1);
                     twin.bufs.snapshot_into(&mut b1);
-                    if !ra.is_panic() && (ra != rb || a1 != b1) {
+                    if !ra.is_panic() && (ra != rb || a1[skip..] != b1[skip..]) {
                         viol.push(Violation::new(
                             "C07",
                             "second continuation differs after handoff",
